@@ -1143,6 +1143,10 @@ class Executor(ExprMixin, StmtMixin, Engine):
         qual = key.split('#')[0].split(':')[1].split('.')
         self.cur_class = qual[0] if len(qual) > 1 else None
         self.local_types = c.body_types
+        # names the function assigns somewhere: reading one of them on a path where it has not been
+        # assigned yet is an UnboundLocalError (a refutable obligation), not an unknown construct
+        from .execstmt import assigned_names as _an
+        self.fn_locals = set(_an(fdef.body)[0]) - set(self.mutated_globals if hasattr(self, 'mutated_globals') else ())
         self.cur_fn_stack = [key]
         self.mutated_globals = mutated_global_names(fdef)
         self.concat_axioms = bool(getattr(c, 'options', {}).get('concat_axioms'))
